@@ -13,6 +13,7 @@ import (
 
 	"github.com/llir/llvm/ir"
 	"github.com/llir/llvm/ir/constant"
+	"github.com/llir/llvm/ir/metadata"
 	"github.com/llir/llvm/ir/types"
 	"github.com/llir/llvm/ir/value"
 	"github.com/llir/llvm/zzsim/simrt"
@@ -255,6 +256,19 @@ func applyStart(m *ir.Module, start string) {
 				break
 			}
 		}
+	case "md-clash":
+		// Two metadata definitions carry the same explicit ID: every print of the
+		// module fails the same way ("already in use"), for a lone caller and for
+		// concurrent callers alike, and leaves nothing behind (no lock either).
+		for i, md := range m.MetadataDefs {
+			md.SetID(int64(i))
+		}
+		for len(m.MetadataDefs) < 2 {
+			t := &metadata.Tuple{MetadataID: metadata.MetadataID(len(m.MetadataDefs))}
+			t.Fields = append(t.Fields, &metadata.String{Value: "clash"})
+			m.MetadataDefs = append(m.MetadataDefs, t)
+		}
+		m.MetadataDefs[len(m.MetadataDefs)-1].SetID(0)
 	case "printed":
 		_ = m.String()
 	case "func-printed":
@@ -286,6 +300,14 @@ func applyStart(m *ir.Module, start string) {
 // globals, functions and locals all shift.
 func staleEdit(m *ir.Module) {
 	staleLocals(m)
+	// A parameter appended to an existing function through the exported field
+	// (the function type computed at creation does not know it).
+	for i := len(m.Funcs) - 1; i >= 0; i-- {
+		if f := m.Funcs[i]; len(f.Blocks) > 0 && !f.Sig.Variadic {
+			f.Params = append(f.Params, ir.NewParam("late.param", types.I32))
+			break
+		}
+	}
 	// An optional field assigned after construction (the cached pointer type of
 	// the global keeps the address space it had when it was computed).
 	if n := len(m.Globals); n > 0 {
@@ -455,7 +477,7 @@ func c13Run(sc *C13Scenario) *c13Outcome {
 		got[i] = make([]string, len(calls))
 		fns[i] = func() {
 			for j, c := range calls {
-				s, _ := doCallP(m, c, sc.Start == "unfinished")
+				s, _ := doCallP(m, c, sc.Start == "unfinished" || sc.Start == "md-clash")
 				got[i][j] = s
 			}
 			if gate != nil && !stalls(calls) {
@@ -467,6 +489,8 @@ func c13Run(sc *C13Scenario) *c13Outcome {
 	}
 	curScenario = sc
 	race0 := raceLogSize()
+	runRace0 = race0
+	defer func() { runRace0 = -1 }()
 	simrt.Load(sc.Tape.configKeep())
 	simrt.SeamsOn(false, false)
 	res := simrt.RunTasks(fns, 60*time.Second)
@@ -474,10 +498,7 @@ func c13Run(sc *C13Scenario) *c13Outcome {
 	out.trace = simrt.Trace()
 	// Verdicts, most specific first.
 	if raceLogSize() > race0 {
-		log := raceLogText()
-		if len(log) > int(race0) {
-			log = log[race0:]
-		}
+		log := raceLogFrom(race0, 1<<20)
 		sig, both, first := raceSignature(log)
 		if !both {
 			out.class, out.sig, out.detail = "harness-race", sig, "race report that does not involve two simulator tasks:\n"+first
@@ -507,7 +528,7 @@ func c13Run(sc *C13Scenario) *c13Outcome {
 						var ref []string
 						var app []bool
 						for _, c := range t {
-							s, ok := doCallP(twin, c, sc.Start == "unfinished")
+							s, ok := doCallP(twin, c, sc.Start == "unfinished" || sc.Start == "md-clash")
 							ref = append(ref, s)
 							app = append(app, ok)
 						}
@@ -574,7 +595,7 @@ func c13Run(sc *C13Scenario) *c13Outcome {
 	// Module prints are also compared with the text a sequential print gives in
 	// ANOTHER process (the reference worker): process-wide state corrupted by the
 	// concurrent printers taints the in-process twin as well.
-	if want, ok := c13CrossRef(sc.Module, sc.Start); ok && sc.Start != "unfinished" {
+	if want, ok := c13CrossRef(sc.Module, sc.Start); ok && sc.Start != "unfinished" && sc.Start != "md-clash" {
 		for i := range sc.Tasks {
 			for j, c := range sc.Tasks[i] {
 				k := c.K % len(callNames)
@@ -697,6 +718,9 @@ func c13GenScenario(r *rng, srcs []*moduleSource) *C13Scenario {
 		sc.Start = "fresh"
 		if r.chance(1, 10) {
 			sc.Start = "unfinished"
+			if r.chance(1, 2) {
+				sc.Start = "md-clash"
+			}
 		}
 	case x < 8:
 		sc.Start = "printed"
